@@ -276,4 +276,19 @@ func runC16(run *Run, replay string) {
 		}
 		run.Sample(map[string]interface{}{"keys": Show(L(keysS(k)...)), "schema_key": base, "permutations_checked": len(perms)})
 	}
+	// dependent-body selection and merge on generated schemas/configurations (T1 against Model/Merge.v)
+	bases := 25
+	if run.Thorough {
+		bases = 300
+	}
+	for bi := 0; bi < bases; bi++ {
+		r := rand.New(rand.NewSource(subSeed(run.Res.Seed, bi)))
+		for _, sc := range genScenarios(r, ScenarioOpts{Histories: 2, Inject: bi%3 == 1, Gen: GenOpts{Degenerate: bi%5 == 4}}) {
+			n := mergeCases(run, sc, 12)
+			run.Res.Evaluations += n
+			if n > 0 {
+				run.Distinct("merge|" + string(sc.Src))
+			}
+		}
+	}
 }
